@@ -36,7 +36,7 @@ MANIFEST = {
     "note": "Trusted base: rv.refdec's classification of the mutant. Classes: entry id / name / prefix / datatype reference "
             "beyond size (incl. zero-form overflow), unfilled slot, datatype 0, datatype or prefix reference with disabled "
             "table, repeat without previous, repeat in quoted triple, missing options, forbidden row kind, triple outside "
-            "graph, version > 2, physical type 0/unknown.",
+            "graph, version > 2, physical type 0/unknown (in the first and in repeated options rows).",
     "technique": "runtime monitoring with fault injection: enumerated stream mutations judged by a reference decoder, prefix oracle on yielded items",
 }
 
@@ -60,6 +60,8 @@ CLASS_KINDS = {
     "triple-outside-graph": {"triple-outside-graph"},
     "unsupported-version": {"bad-version"},
     "unsupported-physical-type": {"bad-physical-type"},
+    "unsupported-version-in-repeated-options": {"options-changed"},
+    "unsupported-type-in-repeated-options": {"options-changed"},
 }
 
 
@@ -175,6 +177,13 @@ def mutants(stream: Stream, opt: dict, rng):
                 rows = s.frames[fi]["rows"]
                 rows[ri], rows[ri + 1] = rows[ri + 1], rows[ri]
                 yield "missing-options", (fi, ri), None, s
+            continue
+        if kind == "options":
+            # a later (repeated) options row that announces another version / stream type than the first one
+            for v in (3, 255):
+                yield "unsupported-version-in-repeated-options", (fi, ri), None, stream.replaced(fi, ri, ("options", {**body, "version": v}))
+            for pt in (0, 7):
+                yield "unsupported-type-in-repeated-options", (fi, ri), None, stream.replaced(fi, ri, ("options", {**body, "physical_type": pt}))
             continue
         # ---- entries
         if kind in sizes:
@@ -305,7 +314,7 @@ def run_case(ctx, rng, mode: str):
         sizes[2] = 0
     options = refenc.make_options(rng, phys, tuple(sizes), any(e[0] == "ns" for e in events))
     policy = refenc.Policy.random(rng) if rng.random() < .5 else refenc.Policy(frame_cut="random")
-    policy.p_options_repeat = 0.0
+    policy.p_options_repeat = rng.choice([0.0, 0.25])
     try:
         pr = refenc.produce(rng, events, options, policy, delimited=rng.random() < .85)
     except refenc.InternalProducerError as e:
